@@ -141,8 +141,15 @@ crypt_scrypt_rn (const char *phrase, size_t phr_size,
                  uint8_t *output, size_t o_size,
                  void *scratch, size_t s_size)
 {
-  if (o_size < set_size + 1 + 43 + 1 ||
-      CRYPT_OUTPUT_SIZE < set_size + 1 + 43 + 1)
+  /* The result consists of the setting without a trailing hash (the
+     part following the last '$'), a '$', and 43 characters of hash.  */
+  const char *hash_sep = strrchr (setting, '$');
+  size_t base_size = set_size;
+  if (hash_sep && hash_sep > setting + 2)
+    base_size = (size_t) (hash_sep - setting);
+
+  if (o_size < base_size + 1 + 43 + 1 ||
+      CRYPT_OUTPUT_SIZE < base_size + 1 + 43 + 1)
     {
       errno = ERANGE;
       return;
